@@ -1,10 +1,10 @@
 package main
 
 import (
-	"sort"
 	"fmt"
 	"go/token"
 	"go/types"
+	"sort"
 	"strings"
 
 	"golang.org/x/tools/go/ssa"
@@ -18,7 +18,7 @@ func init() {
 		Decided: "(a, wrapper only) the client's first flight is AddRecordLayer(hello, 22, 0x0301) — type, version, big-endian length, body — written by one Write before the connection is wrapped, with random, a fresh 32-byte session id and the key share overwritten before the hello is rebuilt, and the server name taken from the configuration or the random generator; " +
 			"(b) the server reply is three records 22/20/23 of version 3.3 whose ServerHello has consistent declared lengths (handshake 118, extensions 46, key share 36/32), echoes the session id of the ClientHello that this very connection sent (slice of a buffer private to the parse), and is written by one Write before wrapping; " +
 			"(c) after wrapping, the raw connection is written only by TLSConn.Write, whose records are 17 03 03 ‖ len ‖ body with 0 < len <= 16640 (imported C05.R4), and the limit chain 16401 <= 16640 <= receive buffer holds with both ends using the same application-data limit.",
-		NotDecided: "structural validity of the ClientHello body produced by uTLS (library); WebSocket/CDN mode (outside the property); that the kernel does not split records (TCP).",
+		NotDecided:  "structural validity of the ClientHello body produced by uTLS (library); WebSocket/CDN mode (outside the property); that the kernel does not split records (TCP).",
 		Assumptions: []string{"uTLS marshals the ClientHello it is configured with"},
 	})
 }
